@@ -127,7 +127,7 @@ ExpectedCb(e) ==
   ELSE IF ~cur.ev.connected THEN [which |-> "failure", errs |-> {ErrNoConnection}, values |-> <<>>]
   ELSE IF ~ClientRequestValid(cur.q) THEN [which |-> "failure", errs |-> {ErrBadRequest, ErrInternal}, values |-> <<>>]
   ELSE IF cur.ev.peer = "silence" THEN [which |-> "failure", errs |-> {ErrResponseTimeout}, values |-> <<>>]
-  ELSE IF cur.ev.peer = "close" THEN [which |-> "failure", errs |-> {ErrIoError}, values |-> <<>>]
+  ELSE IF cur.ev.peer \in {"close", "reset"} THEN [which |-> "failure", errs |-> {ErrIoError}, values |-> <<>>]   \* every kind of I/O error
   ELSE IF cur.ev.peer = "badframe" THEN [which |-> "failure", errs |-> {ErrBadFraming}, values |-> <<>>]
   ELSE LET d == DecodeResponse(cur.q, cur.ev.reply) IN
        CASE d.class = "ok" -> [which |-> "complete", errs |-> {0}, values |-> d.values]
@@ -141,7 +141,7 @@ OnCb ==
   /\ LET x == ExpectedCb(Ev)
            \* (open in C04: a read reply of the right length whose byte-count field disagrees may also be refused)
            open == /\ cur.ret = PeOk /\ cur.ev.connected /\ ClientRequestValid(cur.q)
-                   /\ cur.ev.peer \notin {"silence", "close", "badframe"}
+                   /\ cur.ev.peer \notin {"silence", "close", "reset", "badframe"}
                    /\ ByteCountFieldDisagrees(cur.q, cur.ev.reply)
        IN
        /\ \/ Ev.which = x.which /\ Ev.error \in x.errs
